@@ -70,8 +70,11 @@ def noisy(rng, v, key):
 # ------------------------------------------------------------------------------------------------ comparison
 
 class Cmp:
-    def __init__(self, ctx, what, rel=0.0):
+    def __init__(self, ctx, what, rel=0.0, derived=None):
         self.ctx, self.what = ctx, what
+        # derived(path) -> number of converted leaves a loader attribute is computed from (a dual-stage amplifier's gain
+        # and power figures are sums of two rounded values: twice the half unit)
+        self.derived = derived
         self.rel = rel      # objects built by the loaders: attribute names are not leaf names, allow a relative slack
         self.n = 0
         self.first = None
@@ -113,6 +116,8 @@ class Cmp:
                 tol = 0
             else:
                 tol = 0.5 * 10 ** (-d) * (1 + 1e-9) + abs(a) * 4e-16
+                if self.derived:
+                    tol *= self.derived(path)
             if abs(a * 10 ** max(d, 0) - round(a * 10 ** max(d, 0))) > 1e-6:
                 self.extra_digits += 1
             if abs(a - b) > tol and abs(a - b) > self.rel * max(abs(a), abs(b)):
@@ -576,7 +581,9 @@ def run_equipment(ctx, raman=False):
     e1 = attr_dict(_equipment_from_json(deepcopy(ej), DEFAULT_EXTRA_CONFIG))
     e2 = attr_dict(_equipment_from_json(deepcopy(l2), DEFAULT_EXTRA_CONFIG))
     ctx.count('loader_equivalence_checks')
-    cc = Cmp(ctx, 'equipment objects', rel=1e-5)
+    duals = {e['type_variety'] for e in ej.get('Edfa', []) if e.get('type_def') == 'dual_stage'}
+    cc = Cmp(ctx, 'equipment objects', rel=1e-5,
+             derived=lambda path: 2 if len(path) >= 2 and path[0] == 'Edfa' and path[1] in duals else 1)
     cc.walk(e1, e2, [])
     if cc.first:
         ctx.violation('loader-equivalence', f'equipment ({name}): libraries built from the two forms differ: {cc.first}')
